@@ -19,7 +19,10 @@ THEOREMS = ['C04_B_expand_exact', 'C04_B_tree_tidy', 'C04_collapse_is_expand', '
             'C04_A_sound_sentence', 'C04_A_complete_partial', 'C04_A_alg_erasure', 'C04_A_alg_families_sound',
             'C04_A_alg_families_complete', 'C04_A_exact', 'C04_A_complete', 'C04_A_exact_gen', 'C04_A_example',
             'C04_A_dynamic_erasure', 'C04_A_dynamic_sound', 'C04_A_dynamic_sound_checked', 'C04_A_dynamic_families_sound',
-            'C04_A_dynamic_model_sound', 'C04_A_dynamic_complete_partial', 'C04_A_dynamic_scan_complete', 'C04_A_dynamic_example', 'C04_example']
+            'C04_A_dynamic_model_sound', 'C04_A_dynamic_complete_partial', 'C04_A_dynamic_scan_complete', 'C04_A_dynamic_example',
+            'C04_A_packed_dedup_safe', 'C04_A_dynamic_exact', 'C04_A_dynamic_complete', 'C04_A_dynamic_exact_closed',
+            'C04_A_dynamic_exact_fwd_refuted', 'C04_A_dynamic_exact_example',
+            'C04_B_cyclic_sound', 'C04_B_cyclic_total', 'C04_B_cyclic_cycle_free_exact_refuted', 'C04_example']
 GEN_DEPS = []
 RULE = ('random ambiguous grammars (<=4 non-terminals, <=3 alternatives of length <=3, ?rules, _inlined rules, aliases, '
         '[optional] with placeholders, !keep-all rules, filtered anonymous tokens, EBNF * and +), three lexers (basic, '
@@ -328,6 +331,9 @@ CYCLIC_CORPUS = [
     ('start: x\nx: y y | A\ny: x | e\ne: | e\nA: "a"\n', ['a']),
     ('start: x\nx: x e e | e x e | A\ne:\nA: "a"\n', ['a']),
     ('start: l\nl: l l | i\ni: l | A\nA: "a"\n', ['a', 'aa']),
+    # the witnesses of C04_B_cyclic_cycle_free_exact_refuted (packed-node cache filled under one path, reused under another)
+    ('start: a | x\na: x | A\nx: y\ny: a | A\nA: "a"\n', ['a']),
+    ('start: x | a\na: x | A\nx: y\ny: a | A\nA: "a"\n', ['a']),
 ]
 
 
